@@ -5,7 +5,7 @@ func init() {
 		Prop: "C14", Pkg: "zzc14", Func: "VerifC14Handlers",
 		ExtraPkgs: []string{"rest", "webui", "server/web", "message", "storage/mem", "storage/file"},
 		InitPkgs:  []string{"storage", "storage/mem", "storage/file", "message", "rest", "webui", "server/web", "policy"},
-		Quick:     append(grid(rng(0, 2), rng(0, 9), []int64{0}), grid([]int64{2}, rng(0, 9), []int64{1})...),
+		Quick:     append(append(grid(rng(0, 2), rng(0, 9), []int64{0}), grid([]int64{2}, rng(0, 9), []int64{1})...), []int64{11, 0, 0}, []int64{11, 0, 1}),
 		Thorough:  append(grid(rng(0, 3), rng(0, 9), []int64{0}), grid(rng(0, 2), rng(0, 9), []int64{1})...),
 		Unwind:    40, LoopBounds: fileLoopBounds,
 		Desc:      "one request to each REST v1 handler (list, show, source, mark-seen, delete, purge) and web UI handler (message, source, html, attachment) over the real StoreManager + memory store holding m messages; name from a menu of aliases of the mailbox / another mailbox / an invalid name, id from {1,2,latest,9,\"\"}; status <=> existence, payload and effects == store",
